@@ -124,24 +124,25 @@ Definition lreach (s : lstate) : Prop := reachable_from lstep l_init s.
 
 (** ** The linearisation: critical sections of the history, oldest last *)
 
-Inductive lev := LIns (i : item) | LPop (i : item) (d : N).
+Inductive lev := LIns (i : item) (new : bool) | LPop (i : item) (d : N).
 
 Fixpoint lin (h : list ev) : list lev :=
   match h with
   | [] => []
-  | EIns _ i _ :: h' => LIns i :: lin h'
+  | EIns _ i new :: h' => LIns i new :: lin h'
   | EPop i d :: h' => LPop i d :: lin h'
   | _ :: h' => lin h'
   end.
 
 (** replay of a linearisation (newest first) on the abstract coalescing
-    queue; [None] if a recorded pop is not what the abstract queue delivers *)
+    queue; [None] if a recorded insert result or a recorded pop is not what the
+    abstract queue gives *)
 Fixpoint aq_replay (h : list lev) : option aq :=
   match h with
   | [] => Some []
-  | LIns i :: h' =>
+  | LIns i new :: h' =>
       match aq_replay h' with
-      | Some q => Some (fst (aq_insert i q))
+      | Some q => if Bool.eqb new (snd (aq_insert i q)) then Some (fst (aq_insert i q)) else None
       | None => None
       end
   | LPop i d :: h' =>
@@ -154,13 +155,38 @@ Fixpoint aq_replay (h : list lev) : option aq :=
 Fixpoint count_ins (h : list lev) : N :=
   match h with
   | [] => 0
-  | LIns _ :: h' => 1 + count_ins h'
+  | LIns _ _ :: h' => 1 + count_ins h'
   | LPop _ _ :: h' => count_ins h'
   end.
 
 Fixpoint delivered (h : list lev) : list (item * N) :=
   match h with
   | [] => []
-  | LIns _ :: h' => delivered h'
+  | LIns _ _ :: h' => delivered h'
   | LPop i d :: h' => (i, d) :: delivered h'
   end.
+
+(** ** The property in terms of the history alone
+
+    [npend i h]: insertions of [i] since its last delivery.
+    [fpos i h]: chronological position of the first of them. *)
+Fixpoint npend (i : item) (h : list lev) : N :=
+  match h with
+  | [] => 0
+  | LIns j _ :: h' => (if N.eqb i j then 1 else 0) + npend i h'
+  | LPop j _ :: h' => if N.eqb i j then 0 else npend i h'
+  end.
+
+Fixpoint fpos (i : item) (h : list lev) : option nat :=
+  match h with
+  | [] => None
+  | LIns j _ :: h' =>
+      match fpos i h' with
+      | Some k => Some k
+      | None => if N.eqb i j then Some (List.length h') else None
+      end
+  | LPop j _ :: h' => if N.eqb i j then None else fpos i h'
+  end.
+
+Definition pos (h : list lev) (i : item) : nat :=
+  match fpos i h with Some k => k | None => O end.
